@@ -427,7 +427,7 @@ def run(ctx):
         data = content(B + 3, 1)
         write(os.path.join(d, "in.bin"), data)
         key = "asconcrypt:prompt"
-        for pw in (b"x", b"typed pass phrase", b"Q" * 300):
+        for pw in (b"x", b"typed pass phrase", b"Q" * 300, b"swordfish ", b"tab\t", b" lead and trail  "):     # what is typed is the password, white space at either end included
             enc, out = os.path.join(d, "p.ascon"), os.path.join(d, "p.out")
             for f in (enc, out):
                 if os.path.exists(f):
